@@ -189,6 +189,35 @@ def replay(seed, idx, desc, name, be):
     return None
 
 
+def concat_rearrangements():
+    """'for every pure rearrangement, swapping the input and output expressions inverts it' - with concatenations (the corpus relations skip descriptions containing '+')"""
+    import einx
+    out = []
+    rng = np.random.default_rng(3)
+    cases = [("(a + b) (c + d) -> a c, a d, b c, b d", [(5, 7)], dict(a=2, c=3)), ("(a + b) c -> a c, b c", [(5, 3)], dict(a=2)), ("x (a + b) (c + d) -> x a c, x a d, x b c, x b d", [(2, 4, 6)], dict(a=1, c=2)),
+             ("(a + b + e) (c + d) -> a c, a d, b c, b d, e c, e d", [(6, 4)], dict(a=1, b=2, c=1)), ("(a + b) (c + d) (e + f) -> a c e, a c f, a d e, a d f, b c e, b c f, b d e, b d f", [(3, 4, 5)], dict(a=1, c=1, e=2)),
+             ("(a + a) (b + b) -> a b, a b, a b, a b", [(4, 6)], {}), ("(a + b) (c + d) -> c a, d a, c b, d b", [(5, 7)], dict(a=2, c=3))]
+    for desc, shapes, kw in cases:
+        x = rng.integers(0, 1000, size=shapes[0]).astype(float)
+        lhs, rhs = desc.split(" -> ")
+        inv = f"{rhs} -> {lhs}"
+        d = {"op": "id", "description": desc, "shapes": [list(s) for s in shapes], "kwargs": kw, "relation": "inversion with concatenation", "related_description": inv, "backend": "numpy"}
+        for be in ("numpy", "numpy.numpylike"):
+            o = harness.outcome(lambda: einx.id(desc, x, backend=be, **kw), 30)
+            if o[0] != "ok":
+                out.append(("error", dict(d, backend=be), f"split fails: {o[1:]}"))
+                continue
+            parts = list(o[1]) if isinstance(o[1], (tuple, list)) else [o[1]]
+            o2 = harness.outcome(lambda: einx.id(inv, *parts, backend=be), 30)
+            if o2[0] != "ok":
+                out.append(("error", dict(d, backend=be), f"recomposition fails: {o2[1:]}"[:300]))
+            elif np.asarray(o2[1]).shape != x.shape or not np.array_equal(np.asarray(o2[1]), x):
+                out.append(("mismatch", dict(d, backend=be), "splitting and recomposing with the swapped description does not restore the tensor"))
+            else:
+                out.append(("ok", dict(d, backend=be), None))
+    return out
+
+
 def run(tier, seed):
     chk = Check("C08", tier, seed, "other")
     try:
@@ -199,7 +228,7 @@ def run(tier, seed):
     except ImportError:
         pass
     n = 16 if tier == "quick" else 800
-    res = [x for r in harness.pmap(_work, [(seed, i) for i in range(n)]) for x in r]
+    res = [x for r in harness.pmap(_work, [(seed, i) for i in range(n)]) for x in r] + concat_rearrangements()
     fails = [r for r in res if r[0] != "ok"]
     seen = set()
     for st, d, detail in fails:
